@@ -11,6 +11,18 @@ NOTE = ("Trusted base: Lean 4.33 kernel (+ leanchecker re-check in the thorough 
         "string/Duration/BTreeSet/StableVec semantics, derive_builder/strum/derive_more/shorthand generated code, derived PartialEq/Ord/Hash. ")
 
 CLAIMS = {
+    "C17": {
+        "technique": "Lean 4 proof over definitions REGENERATED from the 19 into_owned bodies on every run (translator) + differential/oracle run of into_owned, clone and the three parse entry points",
+        "text": ("Translation + proof: bin/lib/translate.py re-reads every `fn into_owned` of /repo/src on every run and regenerates "
+                 "lean/Hls/Generated/IntoOwned.lean (per target field: which source field feeds it through which ownership-only wrapper; any other expression "
+                 "is a broken tie). Theorems (Lean 4) over that generated file: codecs_id … masterPlaylist_id (for all 19 types into_owned is the identity on "
+                 "observable content - a swapped, dropped or altered field makes the theorem unprovable), entry_points_agree (TryFrom = FromStr = "
+                 "builder.parse on a fresh builder; the translator also checks the three Rust entry points still have that shape), owned_same_text. Tie / "
+                 "search: for every accepted generated/mutated value the real library must satisfy v.clone().into_owned() == v, equal observation, equal "
+                 "to_string(), likewise clone(); the three entry points must give identical results on the same text."),
+        "design_ref": "DESIGN.md §7 C17",
+        "note": "clone() is #[derive(Clone)] (structural, trusted). The translator recognises only ownership-only wrappers.",
+    },
     "C05": {
         "technique": "Lean 4 proof that no text entry point of the model can return `panic` (every string, every builder configuration) + malformed-stream differential run gated on panicked-or-not + measured growth of running time",
         "text": ("Proof (Lean 4) on the model, which has an explicit `panic` result at every place where the Rust code can unwind: parseMedia_never_panics "
